@@ -186,6 +186,10 @@ func TestC18(t *testing.T) {
 						continue
 					}
 					other := vocab.ShapesFor(f, c, true) // fresh ids: a different value of the same shapes
+					if f.Kind == vocab.KNLV {
+						// nor the text properties that are set but say nothing
+						shapes, other = shapes[2:], other[2:]
+					}
 					if f.Kind == vocab.KItems {
 						// not the set-but-empty list: whether it counts as set (and replaces what `to` has) or as unset is not for this check to say
 						shapes, other = shapes[1:], other[1:]
